@@ -143,7 +143,65 @@ def sx_cond_append(lst, cond, elt):
     return lst
 
 
+_ABSENT = object()
+PROBE_MAX = 300
+
+
+def _probe(d, k):
+    """a plain dict looked up with a symbolic int: fork over 'k equals this key' for every int key (and every key that is
+    itself a pinned symbolic int) plus 'none of them', instead of hashing k (which would have to pick values for it).
+    -> the matching key object | _ABSENT | None (not applicable: let the ordinary operation run)"""
+    if type(d) is not dict or not isinstance(k, SymInt) or isinstance(k, SymBool):
+        return None
+    keys = []
+    for x in d:
+        if isinstance(x, bool):
+            continue
+        if isinstance(x, (int, SymInt)):
+            keys.append(x)
+    if len(keys) > PROBE_MAX:
+        return None
+    from .core import eng
+    import z3
+    if not keys:
+        return _ABSENT
+    conds = []
+    for x in keys:
+        c = (k == x)
+        c = c.e if isinstance(c, SymBool) else z3.BoolVal(bool(c))
+        conds.append(c)
+    conds.append(z3.Not(z3.Or(*conds)) if len(conds) > 1 else z3.Not(conds[0]))
+    i = eng().choose(conds)
+    return keys[i] if i < len(keys) else _ABSENT
+
+
+def sx_getitem(obj, key):
+    hit = _probe(obj, key)
+    if hit is None:
+        return obj[key]
+    if hit is _ABSENT:
+        raise KeyError(key)
+    return dict.__getitem__(obj, hit)
+
+
+def sx_get(obj, *args):
+    if args:
+        hit = _probe(obj, args[0])
+        if hit is not None:
+            if hit is _ABSENT:
+                return args[1] if len(args) > 1 else None
+            return dict.__getitem__(obj, hit)
+    return obj.get(*args)
+
+
+builtins.__sx_getitem__ = sx_getitem
+builtins.__sx_get__ = sx_get
+
+
 def sx_in(x, y, negate=False):
+    hit = _probe(y, x)
+    if hit is not None:
+        return (hit is _ABSENT) if negate else (hit is not _ABSENT)
     f = getattr(y, '_sx_contains_', None)
     if f is not None:
         r = f(x)
@@ -322,9 +380,23 @@ class Rewriter(ast.NodeTransformer):
             return ast.copy_location(new, node)
         return node
 
+    def visit_Subscript(self, node):
+        self.generic_visit(node)
+        if isinstance(node.ctx, ast.Load) and not isinstance(node.slice, ast.Slice) and not (
+                isinstance(node.slice, ast.Tuple) and any(isinstance(e, (ast.Slice, ast.Starred)) for e in node.slice.elts)):
+            self.counts['getitem'] = self.counts.get('getitem', 0) + 1
+            new = ast.Call(func=ast.Name(id='__sx_getitem__', ctx=ast.Load()), args=[node.value, node.slice], keywords=[])
+            return ast.copy_location(new, node)
+        return node
+
     def visit_Call(self, node):
         self.generic_visit(node)
         f = node.func
+        if isinstance(f, ast.Attribute) and f.attr == 'get' and 1 <= len(node.args) <= 2 and not node.keywords \
+                and not any(isinstance(a, ast.Starred) for a in node.args):
+            self.counts['get'] = self.counts.get('get', 0) + 1
+            new = ast.Call(func=ast.Name(id='__sx_get__', ctx=ast.Load()), args=[f.value] + node.args, keywords=[])
+            return ast.copy_location(new, node)
         if isinstance(f, ast.Name) and f.id == 'bool' and len(node.args) == 1 and not node.keywords \
                 and not isinstance(node.args[0], ast.Starred):
             self.counts['bool'] = self.counts.get('bool', 0) + 1
